@@ -53,6 +53,10 @@ structure Fields where
   filesizeSet : Bool := false          -- filesize is not None
   bytes : Nat := 0                     -- bytes_transfered
   tasksLive : Bool := false            -- _transfer_task / _remotely_queue_task exist and are not done
+  /-- a fact about the world, not an attribute: the file system refuses to remove the local file
+  (`aiofiles.os.remove` raises `OSError`: the path is a directory, a read-only mount, a permission, a file
+  held open elsewhere); switched by the environment (`XOp.fsFault`) -/
+  fsBroken : Bool := false
 deriving Repr, DecidableEq
 
 /-- One invocation `transfer.state.<meth>(…)` (or `TransferManager.abort/queue/pause(transfer)` when
@@ -152,7 +156,11 @@ def applyEff (cfg : Cfg) (c : Call) (now : Nat) (f : Fields) : Eff → Fields
     match cfg.dir with
     | .upload => f                                        -- `if not transfer.is_download(): return`
     | .download =>
-      if f.localPath then { f with fileExists := false, localPath := false } else f
+      -- state.py:36-46: `if await exists(local_path): await remove(local_path)` inside `try … except OSError:
+      -- logger.warning(…)`, then `transfer.local_path = None` in either case: a removal the file system refuses
+      -- leaves the file where it is, the path is forgotten all the same, and the method goes on — the failure
+      -- is not a refusal of the request
+      if f.localPath then { f with fileExists := f.fileExists && f.fsBroken, localPath := false } else f
   | .setStartTime => { f with startTime := some now, completeTime := none }
   | .setCompleteTime => if f.startTime.isSome then { f with completeTime := some now } else f
   | .resetQueueVars =>
@@ -229,7 +237,7 @@ the method is suspended in.
   cancelling a `gather` cancels its children (again) and the `gather` only ends, with `CancelledError`,
   once every child has ended — at once when a second cancellation ends them, otherwise (`Cfg.stubborn`)
   the request stays the lock holder, `abandoned`, until the environment lets them end (`XOp.resume`).
-* In the file-system call of `_remove_local_file` (state.py:27-39; only `OSError` is caught): nothing has
+* In the file-system call of `_remove_local_file` (state.py:32-46; only `OSError` is caught): nothing has
   been removed, `local_path` is kept, the lock is released. -/
 def abandon (cfg : Cfg) (p : Pending) (x : XState) : XState :=
   if p.notified then
@@ -256,6 +264,7 @@ inductive XOp
   | tick                -- the clock advances
   | cancelCaller (id : Nat)   -- the task that awaits invocation `id` is cancelled (time-out, shutdown)
   | reload              -- `write_cache()` then `read_cache()` on the same manager (stop/start of a client)
+  | fsFault (b : Bool)  -- the file system starts (`true`) / stops (`false`) refusing removals with `OSError`
 deriving Repr, DecidableEq
 
 def findCall (id : Nat) : List Call → Option Call
@@ -303,6 +312,7 @@ def step (cfg : Cfg) (x : XState) : XOp → XState
   -- the stored copy is repaired and then dropped: `TransferManager.add` finds the transfer it already
   -- holds (`Transfer.__eq__`, manager.py:336-339) and returns that one, untouched
   | .reload => x
+  | .fsFault b => { x with f := { x.f with fsBroken := b } }
 
 def run (cfg : Cfg) (x : XState) (ops : List XOp) : XState := ops.foldl (step cfg) x
 
